@@ -67,9 +67,21 @@ def extract_arms(prog, fv, state_adt_rx, out_adt_rx, result_local=None):
         result_local = max(cands, key=lambda k: cands[k])
     arms = []
     out_aggs = [(bi, s) for bi, si, s in fv.aggregates(out_rx)]
-    for bi, si, s in fv.defs().get(result_local, []):
+    # the match may have been split into per-input (or per-state) handlers that are analysed as part of this function: each
+    # handler's own (state, outputs) result is a local of the same tuple type, and their arms together are the table
+    rl = [result_local] + [l for l in cands if l != result_local and fv.f["locals"][l] == fv.f["locals"][result_local]]
+    # a lone tuple definition of that type counts too once there are several result locals (a handler with a single arm)
+    if len(rl) > 1:
+        for l, ds in fv.defs().items():
+            if l not in rl and fv.f["locals"][l] == fv.f["locals"][result_local] and any(
+                    d[0] in fv.live and d[1] != "t" and d[2]["rv"]["r"] == "agg" and d[2]["rv"]["k"] == "tuple" and not d[2]["p"].get("p") for d in ds):
+                rl.append(l)
+    all_defs = [d for l in rl for d in fv.defs().get(l, [])]
+    for bi, si, s in all_defs:
         if bi not in fv.live:
             continue
+        if si != "t" and s["rv"]["r"] == "use" and len(rl) > 1:
+            continue        # the hand-over of a handler's result
         a = Arm()
         a.block = bi
         a.line = fv.line(bi)
